@@ -256,6 +256,52 @@ pub fn run(o: &Opts, deck: &str) -> String {
                 })
                 .collect();
             out.line(&format!("utree {} | {}", ntrees, toks.join(" ")));
+            // ... and with the traverser's own strategy degenerate as well (the first action of every traverser bucket
+            // weighs 1, the others 3.8e-41): a counterfactual value can then overflow to +inf while the expected value stays
+            // finite -- the recorded regret must still be finite and inside the clamp
+            {
+                let mut first: std::collections::HashSet<(u64, u64, u64)> = Default::default();
+                let rows3: Vec<(u64, u64, u64, u64, f32, f32)> = rows
+                    .iter()
+                    .map(|r| {
+                        if tiny.contains(&(r.0, r.1, r.2, r.3)) || skewed.contains(&(r.0, r.1, r.2)) { *r }
+                        else if first.insert((r.0, r.1, r.2)) { (r.0, r.1, r.2, r.3, r.4, 1.0) }
+                        else { (r.0, r.1, r.2, r.3, r.4, f32::from_bits(27_000)) }
+                    })
+                    .collect();
+                let mut q3 = Profile::verif_from_rows(&rows3);
+                q3.verif_set_epochs(profile.epochs());
+                let toks: Vec<String> = infos
+                    .iter()
+                    .map(|info| {
+                        let r = catch(|| q3.regret_vector(info));
+                        format!("I{}|{}|{}", bkey(info.node().bucket()), info.roots().len(),
+                            r.map(|m| m.iter().map(|(e, v)| format!("{}={}", edge_tok(e), v.to_bits())).collect::<Vec<_>>().join(",")).unwrap_or("P".into()))
+                    })
+                    .collect();
+                out.line(&format!("utree {} | {}", ntrees + 500_000, toks.join(" ")));
+                // the same traverser strategy with an ordinary opponent: every reach is a normal number except the
+                // traverser's own, which never enters the estimator -- a full `tree` line
+                let rows4: Vec<(u64, u64, u64, u64, f32, f32)> = {
+                    let mut first: std::collections::HashSet<(u64, u64, u64)> = Default::default();
+                    profile.verif_rows().into_iter().map(|r| {
+                        if skewed.contains(&(r.0, r.1, r.2)) { r }
+                        else if first.insert((r.0, r.1, r.2)) { (r.0, r.1, r.2, r.3, r.4, 1.0) }
+                        else { (r.0, r.1, r.2, r.3, r.4, f32::from_bits(27_000)) }
+                    }).collect()
+                };
+                let mut q4 = Profile::verif_from_rows(&rows4);
+                q4.verif_set_epochs(profile.epochs());
+                let mut dumped4: Vec<(Info, Vec<(String, u32)>, Vec<(String, u32)>)> = vec![];
+                for info in infos.iter() {
+                    let r = catch(|| q4.regret_vector(info));
+                    let rv = r.as_ref().map(|m| m.iter().map(|(e, v)| (edge_tok(e), v.to_bits())).collect()).unwrap_or(vec![("P".into(), 0)]);
+                    dumped4.push((info.clone(), rv, vec![]));
+                }
+                let t = TreeView(graph);
+                ntrees += 1;
+                out.line(&dump_view(&t, tree_walker(&q4), &q4, q4.epochs(), false, false, &dumped4).replacen(" | ", &format!(" {} | ", ntrees), 1));
+            }
         }
     }
     let lines = out.finish();
